@@ -807,5 +807,5 @@ def jobs(tier, seed):
     for kind in ('[o]', 'm', '(o)'):
         J.append(dict(harness='h_nest', params=dict(kind=kind, n=5 if q else 6), label='nesting %s' % kind, split=4, no_twin=True))
     for typ in ('dict', 'list'):
-        J.append(dict(harness='h_cast', params=dict(typ=typ, n=4 if q else 5), label='direct cast %s' % typ, split=4, no_twin=True))
+        J.append(dict(harness='h_cast', params=dict(typ=typ, n=5 if q else 6), label='direct cast %s' % typ, split=4, no_twin=True))
     return J
